@@ -32,6 +32,9 @@ const (
 	modeEdited     = "grown.edited"        // the contract record names another order of validators
 	modeNoSnapshot = "unresolved.snapshot" // CreateSnapshot fails
 	modeNoAddress  = "unresolved.norecord" // the record holds no address list
+	// the edited ledger again, but the candidate (child of the tip of height 7) claims height 2,
+	// where the initial validators would apply; the block header hash does not cover the height
+	modeClaimLow = "grown.edited.claims_height_2"
 )
 
 func xpoaBox(tier core.Tier) []xpCfg {
@@ -40,9 +43,9 @@ func xpoaBox(tier core.Tier) []xpCfg {
 	ns := []int64{1, 2, 3, 4}
 	rounds := int64(3)
 	if tier == core.Thorough {
-		periods = []int64{1, 2, 3, 5, 8, 13, 30, 100}
-		blockNums = []int64{1, 2, 3, 4, 7}
-		ns = []int64{1, 2, 3, 4, 5, 6}
+		periods = []int64{1, 2, 3, 5, 8, 13}
+		blockNums = []int64{1, 2, 3, 4}
+		ns = []int64{1, 2, 3, 4, 5}
 		rounds = 6
 	}
 	var out []xpCfg
@@ -152,7 +155,7 @@ func xpoaUnit(c xpCfg, only *tdPoint) *outcome {
 			instants = append(instants, instant{ns: ns, s: s, edge: true})
 		}
 	}
-	modes := []string{modeYoung, modeGrown, modeEdited, modeNoHeight, modeNoSnapshot, modeGarbage, modeNoAddress}
+	modes := []string{modeYoung, modeGrown, modeEdited, modeNoHeight, modeNoSnapshot, modeGarbage, modeNoAddress, modeClaimLow}
 	for _, mode := range modes {
 		if only != nil && (only.Kind != "acceptance" || only.Mode != mode) {
 			continue
@@ -169,9 +172,12 @@ func xpoaUnit(c xpCfg, only *tdPoint) *outcome {
 		switch mode {
 		case modeYoung:
 			height = 2
-		case modeEdited:
+		case modeEdited, modeClaimLow:
 			l.store[xpoaBucket+"\x00"+xpoaValidators] = []byte(`{"address":["` + strings.Join(edited, `","`) + `"]}`)
 			want, wantNames = edited, editedNames
+			if mode == modeClaimLow {
+				height = 2
+			}
 		case modeNoHeight:
 			l.failByHt, resolvable = true, false
 		case modeNoSnapshot:
@@ -184,6 +190,8 @@ func xpoaUnit(c xpCfg, only *tdPoint) *outcome {
 			resolvable = false
 		}
 		blk := &lpb.InternalBlock{Version: 1, Height: height, Blockid: []byte("candidate"), PreHash: l.chain[len(l.chain)-1].Blockid}
+		nAcc, nRej := 0, 0
+		seen := map[dkey]bool{}
 		for _, in := range instants {
 			if only != nil && only.TNs != in.ns {
 				continue
@@ -204,7 +212,6 @@ func xpoaUnit(c xpCfg, only *tdPoint) *outcome {
 				blk.Timestamp = in.ns
 				blk.Proposer = []byte(addr)
 				got, pan := accept(pc, blk)
-				o.counts["acceptance_calls"]++
 				pt := tdPoint{Kind: "acceptance", Mode: mode, TNs: in.ns, Candidate: cn}
 				if pan != "" {
 					key := "c16.xpoa.check_panic"
@@ -224,20 +231,24 @@ func xpoaUnit(c xpCfg, only *tdPoint) *outcome {
 				case cn == candEmpty:
 					class = "empty"
 				}
-				res := "rej"
 				if got {
-					res = "acc"
 					accepted++
-					o.counts["accepted."+mode]++
+					nAcc++
 				} else {
-					o.counts["rejected."+mode]++
+					nRej++
 				}
-				o.distinct[fmt.Sprintf("xpoa|%s|edge:%v|%s|b%d|n%d|%s", mode, in.edge, class, c.BlockNum, c.N, res)] = true
+				kind := "round"
+				if in.edge {
+					kind = "edge"
+				}
+				seen[dkey{kind, class, got}] = true
 				if got && !entitled {
 					key := "c16.xpoa.accepts_non_entitled"
 					switch {
 					case cn == candEmpty:
 						key = "c16.xpoa.empty_proposer_accepted"
+					case mode == modeClaimLow:
+						key = "c16.xpoa.claimed_height_selects_validators"
 					case !resolvable:
 						key = "c16.xpoa.accepts_with_unresolved_validators"
 					case !inSlot(s):
@@ -249,15 +260,21 @@ func xpoaUnit(c xpCfg, only *tdPoint) *outcome {
 					} else if resolvable {
 						exp = "rejected: the schedule names no slot"
 					}
-					o.bad(key, fmt.Sprintf("XPoA %+v, %s ledger: block of height %d at t=%s (schedule %v) with proposer %q (%s) was accepted", c, mode, height, fmtNs(in.ns), s, addr, cn), caseOf(pt), exp, "accepted")
+					o.bad(key, fmt.Sprintf("XPoA %+v, %s ledger (tip height %d): block claiming height %d at t=%s (schedule %v) with proposer %q (%s) was accepted", c, mode, len(l.chain)-1, height, fmtNs(in.ns), s, addr, cn), caseOf(pt), exp, "accepted")
 				}
-				if !got && entitled && !in.edge {
+				if !got && entitled && !in.edge && mode != modeClaimLow {
 					o.bad("c16.xpoa.rejects_entitled", fmt.Sprintf("XPoA %+v, %s ledger: block at t=%s (schedule %v) proposed by the entitled %s was refused", c, mode, fmtNs(in.ns), s, cn), caseOf(pt), "accepted", "rejected")
 				}
 			}
 			if accepted > 1 {
 				o.bad("c16.xpoa.two_producers", fmt.Sprintf("XPoA %+v, %s ledger: %d different proposers accepted at t=%s", c, mode, accepted, fmtNs(in.ns)), caseOf(tdPoint{Kind: "acceptance", Mode: mode, TNs: in.ns}), "at most one", fmt.Sprint(accepted))
 			}
+		}
+		o.counts["acceptance_calls"] += nAcc + nRej
+		o.counts["accepted."+mode] += nAcc
+		o.counts["rejected."+mode] += nRej
+		for k := range seen {
+			o.distinct[fmt.Sprintf("xpoa|%s|%s|%s|b%d|n%d|%v", mode, k.kind, k.class, c.BlockNum, c.N, k.acc)] = true
 		}
 	}
 	if only == nil {
@@ -348,7 +365,7 @@ func runXpoa(rep *core.Report, tier core.Tier, distinct map[string]bool) int {
 			n += o.counts["acceptance_calls"] + o.counts["schedule_evaluations"]
 		}
 	}
-	rep.Set("xpoa.box", fmt.Sprintf("%d configurations (period x block_num x validators x window start), every ms of %d rounds, candidates validators+outsider+empty, 7 ledger modes", len(box), box[0].Rounds))
+	rep.Set("xpoa.box", fmt.Sprintf("%d configurations (period x block_num x validators x window start), every ms of %d rounds, candidates validators+outsider+empty, 8 ledger modes", len(box), box[0].Rounds))
 	return n
 }
 
